@@ -1,6 +1,6 @@
 (* Model/C16Text.v — from the CHARACTERS of a file to the token stream of Model/C16Lines.v.
    A file is cut into atoms: the white-space characters blank, CR, LF one by one, and the maximal pieces free of white space
-   (each classified as word / integer text / number text by the harness; tabs, VT, FF are outside the model).
+   (each classified as word / integer text / number text by the harness); tab / VT / FF are the atom AOws (below).
    import_data opens the file in text mode (universal newlines: CR LF is read as LF) and reads
      header and sparse-entry lines with   fp.readline().strip().split(" ")
        strip():     blanks (and the line break) at both ends of the line are dropped
@@ -8,8 +8,11 @@
                     float("") / np.int64("") raise — the GAP marker [Word ""]: unreadable where an integer, a subscript or a
                     value is expected on such a line, not a type word, ignored where the rest of a line is ignored
      values with    np.fromfile(fp, count, sep=" "), for which any run of white space (gaps and line breaks) is a separator.
-   [lex] is that tokenisation as one pass over the atoms; a lone CR (old Mac line ends) is a line break for readline but
-   makes numpy's file-position bookkeeping fail (OverflowError observed): files with lone CRs are outside the claims.
+   [lex] is that tokenisation as one pass over the atoms; a lone CR (old Mac line ends) is a line break for readline, but
+   np.fromfile called right after such a line raises OverflowError (the text file's tell() cookie then carries the newline
+   decoder's pending-CR state and is not a file offset): files with lone CRs are outside the claims.  The same error can hit
+   a CR LF file when CPython's tell() picks a start point between CR and LF (finding C16-N3; observed on CR LF files of
+   rank-0 Kruskal tensors only): such outcomes are outside the model as well.
    Definitions only. *)
 From Coq Require Import String.
 From Coq Require Import List Arith ZArith Lia Bool.
@@ -21,15 +24,42 @@ Variables (D T : Type) (d0 : D) (parse : T -> D) (ofZ : Z -> D).
 Notation token := (token T).
 Notation line := (list token).
 
-Inductive atom := ABlank | ACR | ALF | ATok (t : token).
+(* AOws: one of the OTHER white-space characters tab / VT / FF.  strip() drops them at both ends of a line like blanks;
+   split(" ") does NOT cut at them: inside a line they stay in the piece.  int() / np.int64() / float() ignore white space at
+   both ends of the text they are given, so an integer or number text with such characters attached is read as if they were
+   not there ("2 \t3" = 2, 3); a piece holding nothing else is unreadable ("2 \t 3"), a piece holding two texts joined by
+   them is unreadable as ONE item ("2\t3"), and the type word is compared as it stands ("tensor\t x" is not "tensor").
+   np.fromfile treats them as white space between values ("1.5\t2.5" = two values).
+   One token stream serves both ways of reading: an unreadable piece is announced by the gap marker standing BEFORE its
+   first text (and before each further text of the piece) — unreadable for every readline() site, which looks at whole
+   items, skipped as white space by np.fromfile, which then finds the texts one by one. *)
+Inductive atom := ABlank | ACR | ALF | ATok (t : token) | AOws.
 Definition gap : option token := Some (Word EmptyString).
 
-(* started: a piece has been seen on the current line; pend: blanks seen since that piece *)
+(* look-ahead on the rest of the line *)
+Fixpoint has_tok (r : list atom) : bool :=         (* a piece follows before the line ends *)
+  match r with ABlank :: r' | AOws :: r' => has_tok r' | ATok _ :: _ => true | _ => false end.
+Fixpoint after_ows (r : list atom) : bool :=       (* tab / VT / FF only, then a text: the same piece goes on *)
+  match r with AOws :: r' => after_ows r' | ATok _ :: _ => true | _ => false end.
+Definition is_word (t : token) : bool := match t with Word _ => true | _ => false end.
+(* the piece that starts with text t is unreadable as one item: another text is joined to it by tab / VT / FF, or t is a
+   word with such a character attached inside the line (only the type word is ever compared) *)
+Definition marked (t : token) (r : list atom) : bool :=
+  match r with AOws :: r' => if is_word t then has_tok r' else after_ows r' | _ => false end.
+
+(* started: a piece has been seen on the current line; pend: blanks seen since the last text *)
 Fixpoint lex_aux (started : bool) (pend : nat) (a : list atom) : stream T :=
   match a with
   | [] => []
   | ABlank :: r => lex_aux started (if started then S pend else 0) r
-  | ATok t :: r => (if started then repeat gap (pred pend) else []) ++ Some t :: lex_aux true 0 r
+  | AOws :: r => lex_aux started pend r
+  | ATok t :: r =>
+      (if started then
+         match pend with
+         | O => [gap]                                                (* joined to the previous text: same piece *)
+         | S k => repeat gap k ++ (if marked t r then [gap] else [])  (* k empty / white-space-only pieces in between *)
+         end
+       else if marked t r then [gap] else []) ++ Some t :: lex_aux true 0 r
   | ALF :: r => None :: lex_aux false 0 r
   | ACR :: r => match r with ALF :: _ => lex_aux started pend r | _ => None :: lex_aux false 0 r end
   end.
@@ -54,9 +84,17 @@ Definition render (f : list (line * style)) : list atom := flat_map render_line 
 (* what export_data writes: no extra blanks, LF *)
 Definition plain : style := mkStyle 0 0 LF.
 Definition render_plain (f : list line) : list atom := render (map (fun l => (l, plain)) f).
+
+(* ---- the same with tab / VT / FF among the padding: true = blank, false = one of the other white-space characters ---- *)
+Record wstyle := mkWstyle { wlead : list bool; wtrail : list bool; wbrk : eol }.
+Definition ws_atoms (w : list bool) : list atom := map (fun b : bool => if b then ABlank else AOws) w.
+Definition render_line_ws (ls : line * wstyle) : list atom :=
+  ws_atoms (wlead (snd ls)) ++ join_toks (fst ls) ++ ws_atoms (wtrail (snd ls)) ++ eol_atoms (wbrk (snd ls)).
+Definition render_ws (f : list (line * wstyle)) : list atom := flat_map render_line_ws f.
 End X.
 
 Arguments ABlank {T}.
 Arguments ACR {T}.
 Arguments ALF {T}.
 Arguments ATok {T} t.
+Arguments AOws {T}.
